@@ -537,7 +537,7 @@ MANIFEST = dict(
           'streams with state snapshots, and validated by TLC against the denotation.'),
     note=('Decided for integer-valued expressions within the enumerated/generated classes and N = 12 observed values; '
           'not decided: distribution of random patterns (only seed-determinism and draw order of Prand/Pwhite under Pseed), '
-          'float tolerances of Pconst, Pseq/Place offsets >= len, arithmetic on list values, expressions that never '
+          'float values off a dyadic lattice (Pconst tolerances are decided on integers and dyadic lattices), Pseq/Place offsets >= len, arithmetic on list values, expressions that never '
           'yield (excluded). Trusted: TLC, CPython generators/random, the driver that builds objects and records.'),
     technique='TLA+ denotational oracle evaluated by TLC on enumerated and random pattern expressions + batch trace validation of real sc3 streams',
     design_ref='DESIGN.md section 3 / C13',
